@@ -30,6 +30,7 @@ ASSUMPTIONS = [
     "argument errors are decided before anything else (nothing can be looked up before the arguments are parsed)",
     "the sandbox runs as root, so 'read-only' outputs are represented by a directory, a missing parent, a path through a regular file and /dev/full (EACCES is unreachable)",
     "OpenAI/AzureOpenAI client construction fails in this environment (openai/httpx version mismatch: TypeError 'proxies', also fails 4 baseline tests), so fully configured OpenAI clients are not generated; consistent Azure Llama configuration is",
+    "an AI variable that is exported but empty does not count as set (key + empty endpoint is an inconsistent configuration; both empty is consistent)",
     "malformed result documents are generated with no expected status (not specified by the statement); only the 'non-zero => report not written' clause is checked for them",
 ]
 
@@ -70,8 +71,8 @@ def scenario(draw):
     rf["sarif"] = draw(st.sampled_from([[]] * 6 + [["semgrep"], ["codeql"], ["semgrep", "codeql"], ["semgrep", "semgrep"], ["codeql", "semgrep", "codeql"], ["missing"], ["semgrep", "missing"], ["malformed"]]))
     sc["results"] = rf
     sc["ai"] = {
-        "azure_openai": draw(st.sampled_from(["none"] * 5 + ["key-only", "endpoint-only"])),
-        "llama": draw(st.sampled_from(["none"] * 5 + ["both", "key-only", "endpoint-only"])),
+        "azure_openai": draw(st.sampled_from(["none"] * 6 + ["key-only", "endpoint-only", "key+empty-endpoint", "endpoint+empty-key", "both-empty"])),
+        "llama": draw(st.sampled_from(["none"] * 6 + ["both", "key-only", "endpoint-only", "key+empty-endpoint", "endpoint+empty-key", "both-empty"])),
     }
     sc["output"] = draw(st.sampled_from(["file", "file", "file", "none", "existing", "directory", "missing-parent", "through-file", "devfull"]))
     sc["output_twice"] = draw(st.integers(0, 7)) == 0
@@ -159,7 +160,10 @@ def build(sc, sd):
         (sd / "plain.txt").write_text("x")
         out_path = sd / "plain.txt" / "report.codetf"
     elif out == "devfull":
-        out_path = "/dev/full"
+        # reached through a symlink in the scratch directory: a (mutated) implementation that renames a
+        # temporary file over the output path must not be able to replace the device node itself
+        out_path = sd / "full-link"
+        os.symlink("/dev/full", out_path)
     if out_path is not None:
         if sc["output_twice"]:
             groups.append(["--output", str(sd / "first.codetf")])
@@ -193,14 +197,16 @@ def build(sc, sd):
     argv = [t for g in groups for t in g]
     env = {}
     ai = sc["ai"]
-    if ai["azure_openai"] == "key-only":
-        env["CODEMODDER_AZURE_OPENAI_API_KEY"] = "k"
-    elif ai["azure_openai"] == "endpoint-only":
-        env["CODEMODDER_AZURE_OPENAI_ENDPOINT"] = "https://example.invalid"
-    if ai["llama"] in ("both", "key-only"):
-        env["CODEMODDER_AZURE_LLAMA_API_KEY"] = "k"
-    if ai["llama"] in ("both", "endpoint-only"):
-        env["CODEMODDER_AZURE_LLAMA_ENDPOINT"] = "https://example.invalid"
+    for fam, prefix in (("azure_openai", "CODEMODDER_AZURE_OPENAI"), ("llama", "CODEMODDER_AZURE_LLAMA")):
+        m = ai[fam]
+        if m in ("both", "key-only", "key+empty-endpoint"):
+            env[prefix + "_API_KEY"] = "k"
+        if m in ("both", "endpoint-only", "endpoint+empty-key"):
+            env[prefix + "_ENDPOINT"] = "https://example.invalid"
+        if m in ("key+empty-endpoint", "both-empty"):
+            env[prefix + "_ENDPOINT"] = ""  # exported but empty (an undefined CI secret): not a usable value
+        if m in ("endpoint+empty-key", "both-empty"):
+            env[prefix + "_API_KEY"] = ""
     facts = dict(
         arg_error=bool(err) or sel == "conflict",
         info=bool(sc["info"]),
@@ -208,7 +214,7 @@ def build(sc, sd):
         missing_input=missing_input,
         dup_sarif=dup_sarif,
         malformed=malformed,
-        ai_bad=ai["azure_openai"] != "none" or ai["llama"] in ("key-only", "endpoint-only"),
+        ai_bad=ai["azure_openai"] not in ("none", "both-empty") or ai["llama"] in ("key-only", "endpoint-only", "key+empty-endpoint", "endpoint+empty-key"),
         out_unwritable=out in ("directory", "missing-parent", "through-file", "devfull"),
         out_path=str(out_path) if out_path is not None else None,
         out_kind=out,
@@ -244,7 +250,8 @@ def eval_case(sc, stats=None):
         argv, env, f = build(sc, sd)
         before = None
         op = f["out_path"]
-        if op and op != "/dev/full" and os.path.isfile(op):
+        devfull = f["out_kind"] == "devfull"
+        if op and not devfull and os.path.isfile(op):
             before = open(op, "rb").read()
         res = runner.run_cli(argv, cwd=str(sd), env=env, timeout=600)
         exp = expected_statuses(f)
@@ -256,10 +263,12 @@ def eval_case(sc, stats=None):
             vs.append(dict(component="cli", kind=f"status-{res.exit}-expected-{'/'.join(map(str, sorted(exp)))}", features=feats, case=sc, detail=detail))
         # clause 2: non-zero => the report was not written
         written = False
-        if op and op != "/dev/full":
+        if op and not devfull:
             if os.path.isfile(op):
                 now = open(op, "rb").read()
                 written = now != before
+        elif op and devfull and not os.path.islink(op) and os.path.isfile(op):
+            written = True  # the symlink was replaced by a regular report file
         if res.exit != 0 and written:
             vs.append(dict(component="cli", kind="nonzero-but-report-written", features=feats, case=sc, detail=detail))
         # completed run with a writable output must have produced a parseable report
